@@ -5,11 +5,14 @@ sys.path.insert(0, os.path.join(os.path.dirname(os.path.abspath(__file__)), ".."
 from nqlib import run_standard, VERIF, byte_mutations, kv
 
 RULE = ("every byte string over {CR,LF,'.','a'} up to length %s (exhaustive; read chunkings full/1/2/3, short writes, and for the shorter ones "
-        "tiny substdio buffers, a failing read() at every position and a failing write()) plus seeded random messages up to 64 KiB (7 of 8 ending in a line end, "
+        "tiny substdio buffers, a failing read() at every position, a failing write() and interrupted reads (EINTR)) plus seeded random messages up to 64 KiB (7 of 8 ending in a line end, "
         "half with substdio buffer sizes 1..1024), "
-        "run through the real qmail-remote.c blast() over the real substdio and safewrite (ASan+UBSan build of the working tree) and the Lean "
+        "run through the real qmail-remote.c blast() over the program's OWN ssin/smtpto exactly as its static initialisers set them up (read operation, "
+        "descriptor, buffer objects and sizes; the program is built as an object of its own whose data sections are restored to the load-time image "
+        "before every case, read()/write()/_exit() interposed at link level, timeoutwrite.o = scripted socket, real safewrite; ASan+UBSan build of the "
+        "working tree) and the Lean "
         "models rblast (pure) and oblast (the loop over Nq.Substdio, the harness's read/write plans as scripts: outcome, bytes taken by the socket, "
-        "bytes left in smtptobuf, number of write() calls); chunking (theorems C06_chunking*): messages of 1-5 KiB each under 16 fixed read x write "
+        "bytes left in smtptobuf, number of write() calls); chunking (theorems C06_chunking*): messages of 1-5 KiB each under 19 fixed read x write "
         "plans (1/2/1023/1024/1025/full/mixed), random short reads and writes, a failing read, a failing write, and every string up to length %s "
         "placed at every offset across the 1024-byte refill of inbuf; oracles on the implementation's output: completed transmissions - terminator once, "
         "no bare LF, stuffed lines, dblast(out)=rfcDecode(out)=canon(in), nothing left unflushed; refused/failed/dropped ones (C06_prefix_no_terminator) - "
